@@ -54,22 +54,24 @@ Definition dummy_env (n : nat) : issue_env :=
      ie_sign := fun _ _ => Val "h.p.s" |}.
 
 (* expires_in_seconds(n): claims["exp"] = now + n; the clock is an oracle, read back from the payload *)
-Definition claims_with_exp (input : json) (exp : json) : json :=
-  match jget "exp_in" input, jget "claims" input with
+Definition claims_with_exp (input call : json) (exp : json) : json :=
+  match jget "exp_n" call, jget "claims" input with
   | JNum _, JObj kvs => JObj (obj_insert "exp" exp kvs)
   | _, c => c end.
 
-Definition issue_model (E : issue_env) (input : json) (exp : json) : out (string * json * list disc) :=
+Definition issue_model (E : issue_env) (input call : json) (exp : json) : out (string * json * list disc) :=
   let header := JObj [("alg", jget "alg" input); ("typ", JStr "sd-jwt")] in
   let cnf := if jbool (jget "cnf" input) then Some (jget "cnf_value" input) else None in
-  issue E (claims_with_exp input exp) (jstrs (jget "paths" input)) (Z_of_json (jget "decoy" input)) cnf header.
+  issue E (claims_with_exp input call exp) (jstrs (jget "paths" input)) (Z_of_json (jget "decoy" input)) cnf header.
 
 (* C14: an expiry requested as n seconds from now is recorded as now+n, now within the call's [t0,t1] *)
 Definition exp_oracle (input call : json) : option string :=
-  match Z_of_json (jget "exp_in" input) with
+  match Z_of_json (jget "exp_n" call) with
   | None => None
   | Some n =>
-      match Z_of_json (jget "exp" (jget "payload" (jget "readback" call))), Z_of_json (jget "t0" call), Z_of_json (jget "t1" call) with
+      (* n = the argument of the most recent expires_in_seconds call on this issuer object, [exp_t0, exp_t1] the
+         clock around that call; an exp member the claims already had, or an earlier request, must not survive *)
+      match Z_of_json (jget "exp" (jget "payload" (jget "readback" call))), Z_of_json (jget "exp_t0" call), Z_of_json (jget "exp_t1" call) with
       | Some e, Some t0, Some t1 => if ((t0 + n <=? e) && (e <=? t1 + n))%Z then None else Some "exp is not now+n"
       | _, _, _ => Some "exp missing or not an integer" end
   end.
@@ -123,7 +125,7 @@ Definition case_issue_call (input call : json) : verdict :=
   let npaths := List.length (jlist (jget "paths" input)) in
   let E := if obs_is "ok" eo then env_of_readback rb else dummy_env npaths in
   let exp := jget "exp" (jget "payload" rb) in
-  let m := issue_model E input exp in
+  let m := issue_model E input call exp in
   let mo := if obs_is "ok" eo then obs_of_out (fun r : string * json * list disc => JStr (fst (fst r))) m
             else match m with Val _ => JObj [("o", JStr "ok")] | Fail => JObj [("o", JStr "err")] | Panic => JObj [("o", JStr "panic")] end in
   let nt := jbool (jget "nontrivial" input) in
@@ -134,7 +136,7 @@ Definition case_issue_call (input call : json) : verdict :=
     let token := jstr_or_empty (obs_val eo) in
     let O := oracles_of_readback rb in
     let mh := obs_of_out (fun r : json * json * list dpath => let '(h, c, ps) := r in JArr [h; c; sorted_paths_ ps]) (holder_verify O token) in
-    let claims := match claims_with_exp input exp, jbool (jget "cnf" input) with
+    let claims := match claims_with_exp input call exp, jbool (jget "cnf" input) with
                   | JObj kvs, true => JObj (obj_insert "cnf" (jget "cnf_value" input) kvs)
                   | c, _ => c end in
     (* the round trip: also for an empty marking (C14: every issued SD-JWT is valid) - the token then carries no
